@@ -94,8 +94,8 @@ def judge_record(rec):
             raise
         sv = not errs
         n += 1
-        if doc["ref"] == "U":
-            continue  # the reference leaves this document unjudged (e.g. a declared key that plain objects inherit)
+        if doc["ref"] == "U" and has_proto_named_key(d):
+            continue  # a key that plain objects inherit (constructor, toString, ..): left to C03's finding
         if sv and not doc.get("vvLoose", doc["vv"]):
             viol("schema-accepts-what-validator-rejects", doc.get("why") or "?", f"document {json.dumps(d)[:300]} is valid against the schema but validate() is false", d)
         elif sv and doc["vv"] and doc["refStrict"] == "N" and doc["ref"] == "Y":
@@ -105,6 +105,19 @@ def judge_record(rec):
             b = best_match(errs)
             viol("schema-rejects-exact-member", cause_tag(errs), f"document {json.dumps(d)[:300]} is an exact, null-free member but the schema rejects it: {b.message[:160]}", d)
     return n, out
+
+
+PROTO_NAMES = {"constructor", "toString", "valueOf", "hasOwnProperty", "isPrototypeOf", "propertyIsEnumerable", "toLocaleString", "__proto__", "__defineGetter__", "__defineSetter__", "__lookupGetter__", "__lookupSetter__"}
+
+
+def has_proto_named_key(d, depth=0):
+    if depth > 60:
+        return False
+    if isinstance(d, dict):
+        return any(k in PROTO_NAMES or has_proto_named_key(v, depth + 1) for k, v in d.items())
+    if isinstance(d, list):
+        return any(has_proto_named_key(x, depth + 1) for x in d)
+    return False
 
 
 def judge_file(path):
